@@ -264,6 +264,8 @@ def rule_dup(R):
             continue
         rb = f.bodies[name]
         pcalls = [c.bb for c in rb.calls.values() if c.bb in rb.reachable and any(t in pnames for t in f.call_targets(c))]
+        # the patch may also be written out in the re-arm function itself (helper folded in, loops fused)
+        pcalls += [bb for (b_, bb, t_, v_, sp_) in patches if b_.name == rb.name and bb in rb.reachable]
         cen = outq.census(f)
         stores = [bb for (b, bb, field, val, span) in cen["retained"]["elem_stores"]
                   if b.name == name and field == "state" and (outq.is_write0(val) or outq.helper_write0(f, val))]
